@@ -1,107 +1,64 @@
 """C02 -- generic JSON diff -> patch round trip is exact, value types included.
 
 For documents a, b of the same container type built by gen/docs.py (shapes by
-E.choice, every scalar leaf a SymScalar with symbolic JSON type tag and value):
+E.choice, every scalar leaf a SymScalar with symbolic JSON type tag and value)
+the real nbdime.diff / nbdime.patch are executed symbolically and, on every
+feasible path, z3 decides for all leaf values on that path:
 
-  d = nbdime.diff(a, b)                       (real code, no exception allowed)
-  O1  json_identical(refpatch(a, d), b)       independent reference patcher
+  O0  nbdime.diff(a, b) does not raise
+  O1  json_identical(refpatch(a, d), b)       independent reference patcher,
+      strict about the documented format (an op the format does not define,
+      an out-of-range key or a doubly targeted item is a violation)
   O2  json_identical(nbdime.patch(a, d), b)   nbdime's own patcher
   O3  d == []  =>  json_identical(a, b)
-  O4  refpatch is strict: any op outside the documented format raises (-> violation)
 
-Strings: every ordered pair of the designed pool through the same obligations
-(enumeration over the pool -- string content is not symbolic; labelled so).
+json_identical is JSON identity: same structure, leaves equal and of the same
+JSON type (True != 1 != 1.0).  Strings: every ordered pair of the designed
+pool through the same obligations (enumeration over the pool -- string content
+is not symbolic; labelled so).  A path is non-trivial when its diff is
+non-empty.
 """
 import sys
 
 from sx import runner
-from sx.values import json_identical, land, lnot, implies, py_equal, SymScalar, NULL
-from gen import docs
-from oracles.refpatch import refpatch, RefPatchError
-from . import common
+from . import common, fam_diff
 
 PROP = "C02"
 
 
-def _known_assumptions(E, a, b, known):
-    """Exclude the input classes of recorded (open) findings as solver
-    assumptions."""
-    if "F1" in known:
-        # F1: two scalars that are Python-equal but of different JSON type
-        la = list(docs.leaves(a))
-        lb = list(docs.leaves(b))
-        for x in la:
-            for y in lb:
-                E.assume(implies(py_equal(x, y), json_identical(x, y)))
+def witness_F1():
+    from sx.values import py_equal, json_identical, land, lnot
 
-
-def _roundtrip(E, a, b, known):
-    import nbdime
-    from nbdime.diff_format import is_valid_diff  # noqa
-    try:
-        d = nbdime.diff(a, b)
-    except Exception as ex:  # noqa
-        E.fail("diff-raised", "%s: %s" % (type(ex).__name__, str(ex)[:200]))
-        return
-    E.nontrivial(len(d) > 0)
-    E.goal("nonempty-diff", len(d) > 0)
-    E.goal("empty-diff", len(d) == 0)
-    E.goal("nested-patch", any(e.op == "patch" for e in d))
-    E.observe("diff", d)
-    try:
-        r = refpatch(a, d)
-    except RefPatchError as ex:
-        E.fail("refpatch-rejects-diff", str(ex))
-        return
-    E.check("refpatch(a,diff)==b", json_identical(r, b),
-            info="reference patcher result differs from target")
-    try:
-        r2 = nbdime.patch(a, d)
-    except Exception as ex:  # noqa
-        E.fail("patch-raised", "%s: %s" % (type(ex).__name__, str(ex)[:200]))
-        return
-    E.check("patch(a,diff)==b", json_identical(r2, b),
-            info="nbdime.patch result differs from target")
-    if len(d) == 0:
-        E.check("empty-diff=>identical", json_identical(a, b),
-                info="diff is empty but documents serialise differently")
-
-
-def make_lists(n, m, known=()):
     def h(E):
-        a = [E.scalar("a%d" % i) for i in range(n)]
-        b = [E.scalar("b%d" % i) for i in range(m)]
-        _known_assumptions(E, a, b, known)
-        _roundtrip(E, a, b, known)
+        a = [E.scalar("a0")]
+        b = [E.scalar("b0")]
+        E.assume(land(py_equal(a[0], b[0]), lnot(json_identical(a[0], b[0]))))
+        fam_diff.roundtrip(E, a, b, ("C02",), ())
     return h, dict(reset=common.nbdime_reset)
 
 
-def make_nested(root, depth, width, known=()):
-    def h(E):
-        if root == "L":
-            a = docs.gen_list(E, "a", depth - 1, width)
-            b = docs.gen_list(E, "b", depth - 1, width)
-        else:
-            a = docs.gen_dict(E, "a", depth - 1, width)
-            b = docs.gen_dict(E, "b", depth - 1, width)
-        _known_assumptions(E, a, b, known)
-        _roundtrip(E, a, b, known)
-    return h, dict(reset=common.nbdime_reset)
-
-
-def main():
+def main(prop=PROP, doc=__doc__):
     common.silence_logging()
     t = common.tier()
-    known = tuple(sorted(common.known_findings(PROP)))
-    chk = common.Check(PROP, __doc__)
-    N = 4 if t == "quick" else 5
-    shards = [("lists-%dx%d" % (n, m), dict(n=n, m=m, known=known))
-              for n in range(N + 1) for m in range(N + 1)]
-    r = runner.explore("harness.c02", "make_lists", shards, nproc=common.nproc(),
-                       budget_s=300 if t == "quick" else 1500)
-    chk.add("flat-lists", r)
-    chk.bounds["flat-lists"] = "all pairs of lists of 0..%d JSON scalars, every leaf symbolic (tag and value)" % N
-    chk.require_goals(["nonempty-diff", "empty-diff"])
+    known = common.known_findings(prop)
+    chk = common.Check(prop, doc)
+    shards = fam_diff.shards(t, (prop,), tuple(sorted(known)))
+    r = runner.explore("harness.fam_diff", shards, nproc=common.nproc(),
+                       budget_s=420 if t == "quick" else 3000)
+    chk.add("generic-diff-patch", r)
+    chk.bounds.update(fam_diff.BOUNDS[t])
+    chk.outside += fam_diff.OUTSIDE
+    chk.require_goals(["nonempty-diff", "empty-diff", "nested-patch"])
+    chk.assumptions += [
+        "oracles refpatch / json_identical are written from docs/source/diffing.rst and never call nbdime",
+        "open known findings are excluded as solver assumptions on the inputs: %s" % ", ".join(sorted(known)),
+    ]
+    if prop == "C02" and "F1" in known:
+        w = runner.explore_inline(witness_F1())
+        if w.violations:
+            chk.known_finding("F1", "diff(%r, %r) drops the JSON type change: %s" % (
+                [w.violations[0]["values"]["a0"]], [w.violations[0]["values"]["b0"]],
+                w.violations[0]["label"]))
     return chk.finish()
 
 
